@@ -192,6 +192,9 @@ func apply(g *verifapi.Graph, nm *namer, o op) (Sx, bool) {
 	return Sx{}, false
 }
 
+// hungAt > 0: FindCycle did not return within the watchdog's time at the op with this 1-based index
+var hungAt int
+
 func runCase(nm *namer, ops []op) (obs []Sx) {
 	var gs [nSlots]*verifapi.Graph
 	for i := range gs {
@@ -265,7 +268,19 @@ func runCase(nm *namer, ops []op) (obs []Sx) {
 			sort.Ints(ps)
 			obs = append(obs, T("l", Ints(ps)))
 		case "cycle":
-			obs = append(obs, T("cycle", Ints(nm.uns(g.FindCycle(nm.of(o.a))))))
+			// FindCycle is run under a watchdog: a walk back through a corrupted parent map never ends
+			// (and allocates all the way).  A hang is an observation; the case is cut after it and the
+			// process stops, because the runaway goroutine cannot be cancelled.
+			done := make(chan []string, 1)
+			go func(seed string) { done <- g.FindCycle(seed) }(nm.of(o.a))
+			select {
+			case cyc := <-done:
+				obs = append(obs, T("cycle", Ints(nm.uns(cyc))))
+			case <-time.After(400 * time.Millisecond):
+				obs = append(obs, T("hang"))
+				hungAt = len(obs)
+				return
+			}
 		default:
 			panic("unknown op " + o.kind)
 		}
@@ -278,6 +293,13 @@ func emit(c *Config, kind string, nm *namer, ops []op) {
 		nm = fixedNames(5)
 	}
 	obs := runCase(nm, ops)
+	if hungAt > 0 {
+		ops = ops[:hungAt]
+		defer func() {
+			c.Close()
+			os.Exit(0)
+		}()
+	}
 	sops := make([]Sx, len(ops))
 	nodes, edges := 0, 0
 	for i, o := range ops {
